@@ -54,3 +54,24 @@ Proof.
     pc_simpl Hdiv Hdivm Hcl Hcm; try reflexivity;
     do 6 (try (pc_split; pc_simpl Hdiv Hdivm Hcl Hcm; try reflexivity)).
 Qed.
+(* halfpel_decode / mv_decode: predictor + differential, the restricted and the extended (UMV) ranges by picture size, the
+   wrap by the inverted differential - the whole function, every option combination *)
+Lemma bridge_p_halfpel_decode cur running p mvd is_x :
+  p_halfpel_decode cur running p mvd is_x = Ok (halfpel_decode cur running p mvd is_x).
+Proof.
+  unfold p_halfpel_decode, halfpel_decode. autounfold with pgenmv. cbv zeta.
+  destruct (has running UNRESTRICTED_MOTION_VECTORS); cbn [andb].
+  - destruct (has_plusptype (d_header cur)); cbn [negb andb].
+    + destruct (motion_vector_range (d_header cur)) as [[|]|]; cbn [bind]; try reflexivity.
+      destruct is_x; cbn [bind];
+        destruct (into_width_and_height (d_format cur)) as [[w h]|]; cbn [bind];
+        destruct (negb (is_mv_within_range (hadd mvd p) _)); reflexivity.
+    + destruct (is_mv_within_range p 32); [reflexivity|].
+      destruct (negb (is_mv_within_range (hadd mvd p) 64)); reflexivity.
+  - cbn [bind]. destruct (negb (is_mv_within_range (hadd mvd p) 32)); reflexivity.
+Qed.
+
+Lemma bridge_p_mv_decode cur running pr mvd : p_mv_decode cur running pr mvd = Ok (mv_decode cur running pr mvd).
+Proof.
+  unfold p_mv_decode, mv_decode. destruct mvd as [mx my], pr as [px py]. rewrite !bridge_p_halfpel_decode. reflexivity.
+Qed.
